@@ -164,6 +164,7 @@ def verify_unit(repo, reg, qualname, timeout_ms=10000, instance=None):
         return res
     res.paths = len(outs)
     res.inlined = sorted(ex.inlined)
+    res.fingerprint = fingerprint(repo, fi, ex)
     res.node_kinds = sorted(ex.node_kinds)
     obl = []
     pc0 = list(p0.pc)
@@ -193,6 +194,8 @@ def verify_unit(repo, reg, qualname, timeout_ms=10000, instance=None):
                         continue
                 else:
                     post.env["result"] = val
+                for nm in c.mutates:
+                    post.env[nm + "__final"] = q.frames[-1].vars[nm]
                 for eid, etxt, tag in c.ensures:
                     goal = post.bool(etxt, proving=True)
                     obl.append(Obligation(qualname, eid, list(q.pc), goal, "ensures",
@@ -242,6 +245,24 @@ def verify_unit(repo, reg, qualname, timeout_ms=10000, instance=None):
     res.ex = ex
     res.env = pre.env
     return res
+
+
+def fingerprint(repo, fi, ex):
+    """sha256 over the ASTs (no positions, comments or formatting) of everything of /repo this unit's obligations were
+    generated from: the function, the functions executed inline, and the module constants that were evaluated."""
+    import ast
+    import hashlib
+    h = hashlib.sha256()
+    h.update(ast.dump(fi.node).encode())
+    for qn in sorted(ex.inlined):
+        f2 = repo.funcs.get(qn)
+        if f2 is not None:
+            h.update(qn.encode())
+            h.update(ast.dump(f2.node).encode())
+    for qual in sorted(ex.consts_seen):
+        h.update(qual.encode())
+        h.update(ex.consts_seen[qual].encode())
+    return h.hexdigest()
 
 
 def class_invariants(reg, repo, fi, c):
